@@ -6,7 +6,7 @@ is trajectory-level agreement, so a disagreement is itself the failing input."""
 from ..common import b2f, f2b
 from ..gen import gen_tree, infosets_of
 from ..ops import CaseBuilder
-from ..solvers import rand_params, draws_for, PRESETS
+from ..solvers import rand_params, draws_for, PRESETS, INF
 
 SCOPE = {"solve", "named", "presets"}
 CORR_IS_VIOLATION = True
@@ -33,6 +33,18 @@ def generate(rng, tier, n):
         threads = rng.choice([1, 1, 4])
         budgets = range(0, 51) if tier == "thorough" else BUDGETS_Q
         cb = CaseBuilder(cid, t, {"stats": st, "method": method, "params": params, "threads": threads})
+        if tier != "thorough" and cid % 4 == 3 and isinstance(params, list):
+            # two parameter tuples that differ in one component, solved alternately with unrelated budgets in one
+            # process and thread: nothing of one solve may survive into the next
+            q = list(params)
+            j = rng.randrange(4)
+            q[j] = rng.choice([x for x in ([-INF, 0.0, 1.0, 2.0, INF] if j < 2 else [0.0, 1.0, 2.0] if j == 2 else [-INF, -0.5, 0.0, 1.0, INF])
+                               if x != q[j]])
+            for T in (1, 5, 1, 3, 1, 7, 2, 1, 10):
+                pq = params if rng.random() < 0.5 else q
+                k = cb.solve(method, T, 0.0, 1 if rng.random() < 0.7 else threads, pq, draws)
+                cb.named(k)
+            budgets = []
         for T in budgets:
             k = cb.solve(method, T, 0.0, threads, params, draws)
             cb.named(k)
